@@ -116,9 +116,34 @@ def _run(model_bytes: bytes, feeds: list[dict[str, np.ndarray]]) -> tuple[list[l
         return None, f"ort: {str(exc)[:200]}"
 
 
+def _few_ulps_apart(a: list[np.ndarray], b: list[np.ndarray], ulps: int = 8) -> bool:
+    """Same shapes, dtypes and non-finite pattern; floats at most `ulps` units in the last place apart.
+    A layout-changing fold hands the same numbers to ORT's vectorised transcendental kernels at other
+    flat positions (vector body vs scalar tail): last-place differences are the kernel's, not the pass's."""
+    if len(a) != len(b):
+        return False
+    for x, y in zip(a, b):
+        x, y = np.asarray(x), np.asarray(y)
+        if x.shape != y.shape or x.dtype != y.dtype:
+            return False
+        if x.dtype.kind != "f":
+            if not np.array_equal(x, y):
+                return False
+            continue
+        fin = np.isfinite(x)
+        if not np.array_equal(fin, np.isfinite(y)) or not np.array_equal(x[~fin], y[~fin], equal_nan=True):
+            return False
+        spacing = np.spacing(np.maximum(np.abs(x[fin]), np.abs(y[fin])).astype(x.dtype)).astype(np.float64)
+        if np.any(np.abs(x[fin].astype(np.float64) - y[fin].astype(np.float64)) > ulps * spacing):
+            return False
+    return True
+
+
 def _same(pre: list[list[np.ndarray]], post: list[list[np.ndarray]], tolerant: bool) -> oracle.Cmp:
     for a, b in zip(pre, post):
         c = oracle.compare(a, b, exact=not tolerant, int_widening_ok=False)
+        if not c.ok and not tolerant and _few_ulps_apart(a, b):
+            c = oracle.Cmp(True)
         if c.ok:
             # dtype must be identical, not only the class
             for i, (x, y) in enumerate(zip(a, b)):
